@@ -127,6 +127,12 @@ def run_check(prop: Prop, tier, seed, replay=None):
         tok, tdetail = translator.regenerate()
         obligations.append(("translator: tables regenerated from /repo", tok, tdetail))
 
+    if getattr(prop, "needs_db_tables", False) and ok:
+        from . import translator_db
+
+        tok, tdetail = translator_db.regenerate()
+        obligations.append(("translator: shipped facts and db.rs knobs regenerated from /repo", tok, tdetail))
+
     # 3. Lean: theorems + driver
     targets = ["driver"] + ([prop.module] if prop.module else [])
     lok, llog = C.build_lean(targets)
